@@ -105,7 +105,11 @@ TEMPLATES = [
     Tpl("width_precision_named_fields", [("v", "Probe"), ("w", "usize"), ("p", "usize")], "{v:w$.p$}", named=True,
         assume="kani::assume(s.w <= 6 && s.p <= 6);", quick=True),
     Tpl("pointer_field_in_literal", ["Probe"], "{_0:p}", quick=True),
-    Tpl("pointer_deref_in_args", PP, "{:p}|{_1:p}", "*_0"),
+    # unwind 24: if the derive formats a *reference* to the field under Pointer (std prints the address: up to 16 hex digits) the harness must
+    # still come back with a verdict instead of an unwinding failure
+    Tpl("pointer_deref_in_args", PP, "{:p}|{_1:p}", "*_0", unwind=24),
+    Tpl("pointer_after_other_placeholder", PP, "{_1} at {_0:p}", unwind=24, quick=True),
+    Tpl("pointer_between_others", PP, "{_0:?}{_1:p}{_0:p}{}", "_1", unwind=24),
     Tpl("raw_identifier_field", [("r#type", "Probe"), ("r#fn", "Probe")], "{type}/{fn:?}", named=True, quick=True),
     Tpl("arithmetic_on_u8_field", [("n", "u8"), ("q", "Probe")], "{}:{q}", "*n % 10 + 1", named=True, unwind=12),
     Tpl("text_only", PP, "no placeholders, just text é"),
